@@ -155,7 +155,14 @@ public:
         op_counter++;
 
         // Normalize
-        const RealScalar vnorm = m_op.norm(v);
+        // If A * v0 = 0, then v0 is in the null space of A and the division below would
+        // produce NaN. In this case v0 itself is an eigenvector, so we start from it:
+        // the residual f becomes zero, and the factorization is continued with a new
+        // direction by the usual restarting mechanism
+        const RealScalar Av0norm = m_op.norm(v);
+        if (Av0norm < m_near_0)
+            v.noalias() = v0;
+        const RealScalar vnorm = (Av0norm < m_near_0) ? v0norm : Av0norm;
         v /= vnorm;
 
         // Compute H and f
